@@ -18,6 +18,7 @@ import random
 from typing import Any, Dict, List
 
 # collision-prone names: substrings of each other, differing in case/punctuation only.
+DIGIT_NAMES = ["gen2", "a1", "step10", "b-a3", "A7", "x_9"]
 COMP_NAMES = ["a", "aa", "ab", "a-b", "a_b", "A", "gen", "gen-x", "genx", "Gen", "b", "ba", "b-a", "cat", "c",
               "work", "worker", "w", "x-y-z", "xy"]
 ENV_NAMES = ["env", "env-a", "envA", "e", "my-env", "MY_ENV", "zz", "aenv"]
@@ -129,13 +130,21 @@ def gen_flowir(r: random.Random) -> Dict[str, Any]:
     for s in range(n_stages):
         ncomp = r.choice([1, 2, 2, 3])
         names = _pick_names(r, COMP_NAMES, ncomp)
+        if s < n_stages - 1 or n_stages == 1:
+            # a non-replicated component whose NAME ENDS IN A DIGIT, placed first so that later ones reference it
+            if r.random() < 0.7:
+                names[0] = r.choice(DIGIT_NAMES)
         names_by_stage[s] = names
         for name in names:
             c: Dict[str, Any] = {"name": name, "stage": s}
             refs: List[str] = []
             args: List[str] = [r.choice(LITS)]
             # producers: up to 3 earlier components
-            for p in r.sample(prior, min(len(prior), r.choice([0, 1, 2, 3]))):
+            chosen = r.sample(prior, min(len(prior), r.choice([0, 1, 2, 3])))
+            for dp in prior:
+                if dp["name"][-1].isdigit() and dp not in chosen and r.random() < 0.7:
+                    chosen.append(dp)
+            for p in chosen:
                 pid = "stage%d.%s" % (p["stage"], p["name"])
                 if p["stage"] == s and r.random() < 0.3:
                     pid = p["name"]
@@ -341,11 +350,14 @@ def gen_dosini(r: random.Random) -> Dict[str, Any]:
     prior = []
     for s in range(n_stages):
         secs = [["META", [["stage-name", "S%d" % s]]]]
-        for name in _pick_names(r, ["Alpha", "Beta", "Ab", "A", "Gen", "GenX", "Work"], r.choice([1, 2, 3])):
+        for name in _pick_names(r, ["Alpha", "Beta", "Ab", "A", "Gen", "GenX", "Work", "Gen2", "A1", "Step10"],
+                                r.choice([1, 2, 3])):
             opts = [["executable", r.choice(EXES)]]
             refs = []
             args = [r.choice(LITS), "%%(%s)s" % r.choice(gvars)]
-            for p in r.sample(prior, min(len(prior), r.choice([0, 1, 2]))):
+            chosen = r.sample(prior, min(len(prior), r.choice([0, 1, 2])))
+            chosen += [dp for dp in prior if dp[-1].isdigit() and dp not in chosen and r.random() < 0.7]
+            for p in chosen:
                 ref = "%s:ref" % p
                 refs.append(ref)
                 args.append(ref)
